@@ -1,4 +1,5 @@
 import GoitModel.Cmds
+import GoitModel.Abstract
 
 /-! Line protocol of the model driver (function-level operations).
     One operation per input line, one canonical answer line per operation. Byte strings are
@@ -182,6 +183,29 @@ def step (s : St) (line : String) : St × String :=
   | "cmd.restore" :: ix :: args :: [] =>
     let w : Cmds.WS := ⟨entriesIn ix, [], [], none, [], false⟩
     (s, resOut (fun r => entriesOut ((r.mergeSort (fun a b => decide (a.path ≤ b.path))).eraseDups)) (Cmds.restoreWork w ((splitList args).map unhex)))
+  | ["abs.run", cs, bs, rs, hd, ix, lg, ops] =>
+    let ids (x : String) : List Bytes := (splitList x).map unhex
+    let r : Abs.Repo := ⟨ids cs, ids bs, pairsIn rs, unhex hd, pairsIn ix, (splitList lg).map (fun x => if x == "nil" then none else some (unhex x))⟩
+    let parseOp (o : String) : Option Abs.Op :=
+      match o.splitOn ":" with
+      | ["add", p, b] => some (.add (unhex p) (unhex b))
+      | ["unstage", p] => some (.unstage (unhex p))
+      | ["stage", p, b] => some (.stageFromHead (unhex p) (unhex b))
+      | ["commit", c] => some (.commit (unhex c))
+      | ["bcreate", n] => some (.branchCreate (unhex n))
+      | ["bdelete", n] => some (.branchDelete (unhex n))
+      | ["brename", n] => some (.branchRename (unhex n))
+      | ["switch", n] => some (.switch (unhex n))
+      | ["switchc", n] => some (.switchCreate (unhex n))
+      | ["updateref", n, i] => some (.updateRef (unhex n) (unhex i))
+      | ["reset", k] => some (.reset (natOf k))
+      | _ => none
+    let opl := (if ops == "-" then [] else ops.splitOn ";").filterMap parseOp
+    let r' := Abs.run r opl
+    let sortB (l : List Bytes) := (l.mergeSort (fun a b => decide (a ≤ b))).eraseDups
+    (s, "C=" ++ listOut ((sortB r'.commits).map hexOut) ++ " B=" ++ listOut ((sortB r'.blobs).map hexOut)
+      ++ " R=" ++ pairsOut (sortPairs r'.branches) ++ " H=" ++ hexOut r'.head ++ " I=" ++ pairsOut (sortPairs r'.index)
+      ++ " L=" ++ listOut (r'.reflog.map fun x => match x with | none => "nil" | some i => hexOut i))
   | ["idx.reset", c] => (s, resOut entriesOut (Cmds.resetEntries H s.fn depth (unhex c)))
   | "eff.shape" :: cmd :: rest =>
     let n (i : Nat) : Nat := natOf (rest.getD i "0")
